@@ -31,6 +31,9 @@ func scriptRT(s *exec.State, v abs.V) {
 			s.Marshal(2)
 			s.Size(2)
 			s.String(2)
+			if s.Buf[2] != nil {
+				s.Unmarshal(kind, 2, 5)
+			}
 		}
 	}
 	s.Datagram(1, 3)
@@ -168,7 +171,36 @@ func runItem(s *exec.State, rec abs.V) {
 	}
 }
 
+// scriptCP: a packet sequence as CompoundPacket through Validate, CNAME,
+// Marshal, MarshalSize, DestinationSSRC, String and Unmarshal (C11).
+func scriptCP(s *exec.State, pkts abs.L) {
+	s.Reset()
+	s.Build(1, abs.V{"k": "CP", "pkts": pkts})
+	s.Validate(1)
+	s.CNAME(1)
+	s.Marshal(1)
+	s.Size(1)
+	s.Dest(1)
+	s.String(1)
+	s.Build(2, abs.V{"k": "LIST", "pkts": pkts})
+	s.Marshal(2)
+	if s.Buf[2] != nil && len(s.Buf[2]) > 0 {
+		dh := 0
+		s.Datagram(2, 4)
+		if has(s, 4) {
+			dh = 4
+		}
+		s.UnmarshalRef("CP", 2, 3, dh)
+		if has(s, 3) {
+			s.Validate(3)
+			s.CNAME(3)
+			s.Dest(3)
+		}
+	}
+}
+
 var extraScripts = map[string]func(*exec.State, abs.V){
+	"cp": func(s *exec.State, rec abs.V) { scriptCP(s, abs.List(rec["pkts"])) },
 	"frames": func(s *exec.State, rec abs.V) {
 		var frames [][]byte
 		for _, f := range abs.List(rec["frames"]) {
@@ -209,3 +241,60 @@ func min(a, b int) int {
 }
 
 var _ = gen.Kinds
+
+func u16list(x any) []uint16 {
+	var out []uint16
+	for _, e := range abs.List(x) {
+		out = append(out, uint16(abs.I(e)))
+	}
+	return out
+}
+
+// scriptNack: the pair builder on a list, then Range/PacketList on every pair built (C12).
+func scriptNack(s *exec.State, seqs []uint16) {
+	s.Reset()
+	_, ps := s.NackPairs(seqs)
+	for i, p := range ps {
+		if i >= 4 {
+			break
+		}
+		s.Ranges(p.PacketID, uint16(p.LostPackets))
+		s.PacketLists(p.PacketID, []uint16{uint16(p.LostPackets)})
+	}
+}
+
+func init() {
+	extraScripts["nack"] = func(s *exec.State, rec abs.V) { scriptNack(s, u16list(rec["seqs"])) }
+	extraScripts["pairs"] = func(s *exec.State, rec abs.V) {
+		s.Reset()
+		s.PacketLists(uint16(abs.I(rec["id"])), u16list(rec["bms"]))
+	}
+	extraOps["nackpairs"] = func(s *exec.State, ev abs.V) { s.NackPairs(u16list(ev["args"])) }
+	extraOps["packetlists"] = func(s *exec.State, ev abs.V) { s.PacketLists(uint16(abs.I(ev["id"])), u16list(ev["args"])) }
+	extraOps["ranges"] = func(s *exec.State, ev abs.V) { s.Ranges(uint16(abs.I(ev["pid"])), uint16(abs.I(ev["blp"]))) }
+	drivers["nackrand"] = func(s *exec.State, g *gen.G, n int) {
+		for i := 0; i < n; i++ {
+			k := g.Pick(0, 1, 2, 3, 5, 8, 17, 33, 64)
+			seqs := make([]uint16, k)
+			base := g.U16()
+			for j := range seqs {
+				switch g.R.Intn(4) {
+				case 0:
+					seqs[j] = uint16(g.U16())
+				case 1:
+					seqs[j] = uint16(base + g.Int(0, 40))
+				default:
+					if j > 0 {
+						seqs[j] = seqs[j-1] + uint16(g.Pick(0, 1, 1, 2, 15, 16, 17, 18))
+					} else {
+						seqs[j] = uint16(base)
+					}
+				}
+			}
+			scriptNack(s, seqs)
+			if i%8 == 0 {
+				s.Ranges(uint16(g.U16()), uint16(g.U16()))
+			}
+		}
+	}
+}
